@@ -5,3 +5,4 @@ import SodModel.DB
 import SodModel.Search
 import SodModel.Trace
 import SodModel.Driver
+import SodModel.Lock
